@@ -405,6 +405,20 @@ def apply(ex, ctx, st, f, args, dest_ty, term):
     name = f.get('name', '')
     key = ctx['key']
     line = term.get('line')
+    # ---- logging (the `log` facade) and the formatting machinery it feeds: no effect on values; whether a message
+    # is emitted is an uninterpreted condition, and the logger is assumed not to panic
+    if path.startswith('log::') or ' as core::cmp::PartialOrd<log::' in path or path.startswith('<log::'):
+        if name in ('le', 'lt', 'ge', 'gt', 'eq', 'ne'):
+            return mk_call('log:enabled', (), 'bool'), st
+        if name in ('max_level',):
+            return mk('opaque', 'log::LevelFilter'), st
+        if name in ('enabled', 'log_enabled'):
+            return mk_call('log:enabled', (), 'bool'), st
+        if name == 'loc':
+            return mk('ref', ('val', mk('opaque', 'log::loc')), None), st
+        return UNIT if name in ('log', 'log_impl') or '__private_api' in path else mk('opaque', 'log'), st
+    if path.startswith('core::fmt::') and (name.startswith('new') or name in ('from_str', 'none')) and ('Arguments' in path or 'Argument' in path or '::rt::' in path):
+        return mk('opaque', 'fmt'), st
 
     def int_method(n):
         return path.startswith('core::num::<impl ') and path.endswith('::' + n)
@@ -666,6 +680,8 @@ def apply(ex, ctx, st, f, args, dest_ty, term):
         tr_ = 'core::cmp::PartialOrd' if 'PartialOrd' in dpath else 'core::cmp::Ord'
         im = pdb.trait_impl(tr_, sty_) if sty_ else None
         base = 'partial_cmp' if tr_.endswith('PartialOrd') else 'cmp'
+        if sty_ and sty_.startswith('log::'):
+            return mk_call('log:enabled', (), 'bool'), st
         if im is None or (name in im['items']):
             raise Uncertified("provided method %s on %s" % (dpath, sty_))
         ra_, rb_ = args
